@@ -167,6 +167,10 @@ def items(tier, seed):
             out.append(dict(fam="mrq", N=N, O=O, A=A, H=H, part=[0, 1], tier=tier, seed=seed, name=f"mrq-N{N}-H{H}-O{O}-A{A}"))
             for norm in (True, False):
                 out.append(dict(fam="encoder", N=N, O=O, A=A, H=H, part=[0, 1], norm=norm, tier=tier, seed=seed, name=f"encoder-N{N}-H{H}-O{O}-A{A}-norm{int(norm)}"))
+                if N * H <= (4 if tier == "quick" else 6) and N > 1:
+                    # non-default encoder option (activation after the last state-encoder layer) crossed with both target options
+                    out.append(dict(fam="encoder", N=N, O=O, A=A, H=H, part=[0, 1], norm=norm, act_last=True, tier=tier, seed=seed,
+                                    name=f"encoder-N{N}-H{H}-O{O}-A{A}-norm{int(norm)}-actlast"))
     # largest batches first (they are the long items), families interleaved: a wall-clock cap on a busy machine
     # then costs the tail of every family instead of whole families
     fam_rank = {f: i for i, f in enumerate(["encoder", "mrq", "td7", "sac", "td3_lap", "ddqn_per", "ddqn", "nature", "dqn", "td3", "ddpg", "sale"])}
@@ -213,6 +217,9 @@ def dq(i, seed, k, act="tanh"):
     return ContinuousClippedDoubleQNet(mlp(i, 1, seed, k, act), mlp(i, 1, seed + 1, k, act))
 
 
+ACT_LAST = [False]  # encoder_activation_in_last_layer of the encoders built next (set per work item)
+
+
 def build(fam, O, A, seed, pi, pj):
     """Real modules. Online sets are indexed by pi, target sets by pj; they never share a seed."""
     so = 100 * seed + 7 * pi + 1
@@ -242,7 +249,7 @@ def build(fam, O, A, seed, pi, pj):
         return dict(emb=emb(so + 20, pi), embt=emb(st + 20, pj + 1), q=critic(so, pi), qt=critic(st, pj + 1))
     if fam in ("mrq", "encoder"):
         def enc(s, k):
-            return rescale(ModelBasedEncoder(O, A, NB, Z, 2, Z, [3], "elu", False, nnx.Rngs(s)), k)
+            return rescale(ModelBasedEncoder(O, A, NB, Z, 2, Z, [3], "elu", ACT_LAST[0], nnx.Rngs(s)), k)
 
         m = dict(enc=enc(so + 20, pi), enct=enc(st + 20, pj + 1))
         if fam == "mrq":
@@ -532,7 +539,9 @@ def extras(fam, item):
     if fam == "ddqn_per":
         return [dict(wmode="default"), dict(wmode="vector")]
     if fam == "td7":
-        return [dict(qmin=-1e6, qmax=1e6, delta=item["delta"]), dict(qmin=-0.05, qmax=0.05, delta=item["delta"]), dict(qmin=0.1, qmax=0.3, delta=item["delta"])]
+        # the last two ranges are degenerate (min == max): train_td7 itself starts with the range [0, 0]
+        return [dict(qmin=-1e6, qmax=1e6, delta=item["delta"]), dict(qmin=-0.05, qmax=0.05, delta=item["delta"]), dict(qmin=0.1, qmax=0.3, delta=item["delta"]),
+                dict(qmin=0.0, qmax=0.0, delta=item["delta"]), dict(qmin=-0.25, qmax=-0.25, delta=item["delta"])]
     return [dict()]
 
 
@@ -1003,6 +1012,7 @@ def log_softmax(z):
 def run_encoder(item, col):
     fam, N, O, A, H, tier, seed, norm = "encoder", item["N"], item["O"], item["A"], item["H"], item["tier"], item["seed"], item["norm"]
     entry = ENTRY[fam]
+    ACT_LAST[0] = bool(item.get("act_last", False))
     bins = make_two_hot_bins(n_bin_edges=NB)
     rng = gen(seed, N, O, A, H, 4)
     obs, act, nobs = grid(rng, (N, H, O)), grid(rng, (N, H, A)), grid(rng, (N, H, O))
@@ -1172,6 +1182,7 @@ def run_encoder(item, col):
 
 def work(item, col):
     fam = item["fam"]
+    ACT_LAST[0] = bool(item.get("act_last", False))
     if fam in ONE_STEP:
         run_one_step(item, col)
     elif fam == "sale":
